@@ -69,6 +69,8 @@ func init() {
 		allLevelRules(c, "C07.H12")
 		c.Borrow("C16", "C16.X1", "C07.H13", "the path parser is called without options: no expression budget or alternative entry rule makes a well-formed path fail", 1, nil)
 		c16RuntimeConstants(c, "", "C07.H14", "C07.H16")
+		c.R.Rule("C07.H17", "whether a profile compiles depends on that profile alone: no compilation writes its prefixes into the shared default table (a later profile would meet foreign bindings, and two compilations at once abort the process)", 1)
+		prefixResolution(c, "C07.H17")
 		c07AssertionsTotal(c)
 	}
 	extras["C08"] = func(c *Ctx) {
